@@ -617,8 +617,15 @@ class DataLinkConnection(TransmissionControlObject):
         if rcvd_pdu.name not in self.DLC_PDU_NAMES:
             self.err("non connection mode pdu on data link connection")
             send_pdu = pdu.FrameReject.from_pdu(rcvd_pdu, flags="W", dlc=self)
-            self.close()
-            self.send_queue.append(send_pdu)
+            with self.lock:
+                if self.state.ESTABLISHED:
+                    # enqueue() runs in the llc thread and must not wait
+                    # for the peer as close() does in this state. The
+                    # connection is shut down when the FRMR is dequeued.
+                    self.send_queue.clear()
+                else:
+                    self.close()
+                self.send_queue.append(send_pdu)
             return
 
         if self.state.CLOSED:
